@@ -81,14 +81,60 @@ import (
 	"path/filepath"
 	"strings"
 	"testing"
+	"time"
 
 	"github.com/go-task/task/v3"
 )
 
 var _ = context.Background
+var _ = time.Second
 ` + gvcDriver
 
 var clauseScenarios = []clauseScenario{
+	{"v3.(*Executor).startExecution", "execOK(h)", scenario{pkgRel: "", what: "a task whose run-once dependency FAILED earlier in the same invocation runs its commands: the later caller of the deduplicated execution gets nil",
+		src: gvcHeader + `
+func TestGvcReplay(t *testing.T) {
+	dir := t.TempDir()
+	gvcWrite(t, dir, "Taskfile.yml", "version: '3'\nsilent: true\ntasks:\n  main:\n    ignore_error: true\n    cmds:\n      - task: first\n      - task: second\n  first:\n    deps: [shared]\n    cmds: [\"echo first-ran >> out.txt\"]\n  second:\n    deps: [shared]\n    cmds: [\"echo second-ran >> out.txt\"]\n  shared:\n    run: once\n    cmds: [\"exit 3\"]\n")
+	var out bytes.Buffer
+	_ = gvcExec(t, dir, &out).Run(context.Background(), &task.Call{Task: "main"})
+	data, _ := os.ReadFile(filepath.Join(dir, "out.txt"))
+	if strings.Contains(string(data), "second-ran") {
+		t.Fatalf("GVC-REPLAY-REPRODUCED: 'second' ran its command although its dependency 'shared' (run: once) had failed with exit status 3 (out.txt=%q, output=%q)", data, out.String())
+	}
+}
+`}},
+	{"v3.(*Executor).startExecution", "notAncestor(h)", scenario{pkgRel: "", what: "a dependency cycle through run: once tasks hangs instead of ending with the maximum-call-count error",
+		src: gvcHeader + `
+func TestGvcReplay(t *testing.T) {
+	dir := t.TempDir()
+	gvcWrite(t, dir, "Taskfile.yml", "version: '3'\nsilent: true\ntasks:\n  a:\n    run: once\n    deps: [b]\n    cmds: [\"echo a\"]\n  b:\n    run: once\n    deps: [a]\n    cmds: [\"echo b\"]\n")
+	var out bytes.Buffer
+	e := gvcExec(t, dir, &out)
+	done := make(chan error, 1)
+	go func() { done <- e.Run(context.Background(), &task.Call{Task: "a"}) }()
+	select {
+	case err := <-done:
+		if err == nil {
+			t.Fatalf("GVC-REPLAY-REPRODUCED: a cyclic Taskfile ran to completion without an error")
+		}
+	case <-time.After(5 * time.Second):
+		t.Fatalf("GVC-REPLAY-REPRODUCED: a -> b -> a with run: once did not return within 5 s (each execution waits for the other)")
+	}
+}
+`}},
+	{"v3.(*Executor).RunTask$1", "precondsOK(call)", scenario{pkgRel: "", what: "--force runs the commands of a task whose precondition fails",
+		src: gvcHeader + `
+func TestGvcReplay(t *testing.T) {
+	dir := t.TempDir()
+	gvcWrite(t, dir, "Taskfile.yml", "version: '3'\nsilent: true\ntasks:\n  a:\n    preconditions:\n      - sh: \"false\"\n    cmds: [\"echo ran >> out.txt\"]\n")
+	var out bytes.Buffer
+	_ = gvcExec(t, dir, &out, task.WithForce(true)).Run(context.Background(), &task.Call{Task: "a"})
+	if _, err := os.Stat(filepath.Join(dir, "out.txt")); err == nil {
+		t.Fatalf("GVC-REPLAY-REPRODUCED: the command ran although the precondition 'false' failed (force=true)")
+	}
+}
+`}},
 	{"v3.(*Executor).RunTask$1", "fpTouched ==> cleaned(t)", scenario{pkgRel: "", what: "a run that stops between the fingerprint check and the first command (no terminal for the prompt) leaves the new checksum: the next run skips the task although its commands never ran",
 		src: gvcHeader + `
 func TestGvcReplay(t *testing.T) {
